@@ -5,4 +5,4 @@ Require Import ExtrOcamlBasic.
 Separate Extraction
   asc adts encode_asc decode_asc canonical asc_roundtrip_ok
   new_adts adts_frequency encode_adts decode_adts adts_canonical no_sync_in first_sync adts_roundtrip_ok
-  set_aac_descriptor decode_entry entry_asc.
+  set_aac_descriptor decode_entry entry_asc decode_entry_sr entry_asc_sr.
